@@ -291,14 +291,22 @@ impl Janitor {
       return;
     }
     let cost_to_free = current_cost - context.capacity;
-    let (victims, cost_released) = context.cache_policy[shard_index].evict(cost_to_free);
+    let (victims, _cost_released_per_policy) = context.cache_policy[shard_index].evict(cost_to_free);
     if victims.is_empty() {
       return;
     }
+    // Account for what really leaves the map: a victim may already have been removed by a user
+    // (the policy had not heard of it yet), or may be resident with another cost than the one
+    // the policy recorded (a concurrent overwrite whose event is still queued). Subtracting the
+    // policy's own figure made `current_cost` drift away from the resident entries for good.
+    let mut evicted = 0u64;
+    let mut cost_released = 0u64;
     {
       let mut guard = shard.map.write();
       for key in &victims {
         if let Some(removed) = guard.remove(key) {
+          evicted += 1;
+          cost_released += removed.cost();
           if let Some(sender) = &context.notification_sender {
             let _ = sender.try_send((key.clone(), removed.value(), EvictionReason::Capacity));
           }
@@ -308,7 +316,7 @@ impl Janitor {
     context
       .metrics
       .evicted_by_capacity
-      .fetch_add(victims.len() as u64, Ordering::Relaxed);
+      .fetch_add(evicted, Ordering::Relaxed);
     context
       .metrics
       .current_cost
